@@ -47,7 +47,7 @@ ASSUMPTIONS = [
     "no atomic-replace is demanded after failed saves",
 ]
 COMPONENTS = {"real": ["partitura.io.exportmidi.save_score_midi", "partitura.io.importmidi.load_score_midi", "partitura.io.load_score", "score.add_measures/tie_notes/find_tuplets", "musicanalysis.estimate_spelling", "mido"], "stub": ["raw file layer (SimFS)", "independent SMF decoder (model/ref_smf.py)"]}
-PROBES = ("tuplet_ticks", "division_change", "pickup", "grace_notes", "tie_over_barline", "fault_in_flight", "reader_on_torn_file", "torn_file_accepted", "midifile_object_route", "load_score_route", "minimum_ppq_doubling")
+PROBES = ("built_with_queries_before_structure", "tuplet_ticks", "division_change", "pickup", "grace_notes", "tie_over_barline", "fault_in_flight", "reader_on_torn_file", "torn_file_accepted", "midifile_object_route", "load_score_route", "minimum_ppq_doubling")
 
 POLICIES = ("shift", "pad_bar", "time_sig_change")
 
@@ -172,7 +172,7 @@ def generate(seed, tier, cfg):
             at = f.choice((0, 0, 1, 2, 3, 5, 8))
             err = {"F1": f.choice((28, 13, 2)), "F2": f.choice((28, 5)), "F3": 28, "F4": 0, "F5": f.choice((2, 13)), "F6": 5}[kind]
             faults.append({"kind": kind, "path": "*", "at": at if kind in ("F2", "F4", "F6") else 0, "errno": err, "op_index": oi})
-    return {"workload": asc, "ops": ops, "faults": faults, "knobs": {"mode": mode, "policy": policy, "min_ppq": min_ppq, "velocity": velocity, "chunk": k.choice((1, 7, 16, 0, 0)), "bufsize": k.choice((-1, 16, 512))}}
+    return {"workload": asc, "ops": ops, "faults": faults, "knobs": {"mode": mode, "policy": policy, "min_ppq": min_ppq, "velocity": velocity, "chunk": k.choice((1, 7, 16, 0, 0)), "bufsize": k.choice((-1, 16, 512)), "late_structure": k.random() < 0.3}}
 
 
 # ----------------------------------------------------------------------------
@@ -373,7 +373,16 @@ def execute(case, keep_log=False):
     if not exp["notes"]:
         res.log.add("world", "skip", "no pitched notes")
         return res
-    score = build.build_score(asc)
+    if (exp["shift"] * exp["ppq"]).denominator != 1:
+        # The padding of pad_bar (bar length - pickup length) is not a whole number of ticks at the ppq the property
+        # fixes (lcm of the divisions): the score's divisions cannot notate a complete bar of its own time signature
+        # (e.g. divisions 1 under 9/8).  "ppq = lcm" and "every tick exact" cannot both hold then; not judged.
+        res.count("skipped:pad_not_a_whole_number_of_ticks")
+        res.log.add("world", "skip", "pad_bar padding is not a whole number of ticks at the lcm ppq")
+        return res
+    score = build.build_score(asc, late_structure=bool(kn.get("late_structure")))
+    if kn.get("late_structure"):
+        res.probe("built_with_queries_before_structure")
     snapper = FP.Snapshotter()
     snap0 = snapper.snapshot(score)
     kw = dict(part_voice_assign_mode=kn["mode"], velocity=kn["velocity"], anacrusis_behavior=kn["policy"], minimum_ppq=kn["min_ppq"])
@@ -425,6 +434,7 @@ def execute(case, keep_log=False):
                     content[path] = "ref"
                     if fs.get(path) != ref_bytes:
                         res.violation("R4-routes", "save", "acknowledged save over route %s stored bytes that differ from the fault-free reference" % op["route"], site=op["route"])
+                        content[path] = "unknown"
                 else:
                     content[path] = "unknown"
                     s1 = snapper.snapshot(score)
